@@ -29,7 +29,11 @@ def run(ctx, out):
                 affected.add(s["name"])
     per = 2500 if thorough else 150
     ops, want, names = [], [], []
+    ref_ops, ref_want = [], []
     def add(s, v, b):
+        # the Lean twin of the reference encoder (Spec/RefCodec.lean, the one the theorem `layout_implemented` is about)
+        ref_ops.append(f"ref {s['name']} {V.show(spec, {'k': 'struct', 'name': s['name']}, v)}")
+        ref_want.append("ok " + C.hexs(b))
         ops.append(f"dec {s['name']} {C.hexs(b)}")
         want.append(f"ok {V.show(spec, {'k': 'struct', 'name': s['name']}, v)} rem=- reenc={C.hexs(b)}")
         names.append(s["name"])
@@ -45,7 +49,11 @@ def run(ctx, out):
     ops += o2; want += w2; names += ["apdu-switch"] * len(o2)
     impl, model = ctx.pair(ops)
     out.compare("dec(ref-encoded)", ops, impl, model)
-    out.evaluations = len(ops)
+    # reference encoder in python (oracle of this check) = reference encoder in Lean (subject of the theorem)
+    ref_got = ctx.driver(ref_ops)
+    out.compare("refcodec.py = Spec/RefCodec.lean", ref_ops, ref_want, ref_got)
+    out.distribution["reference_encoder_twins_compared"] = len(ref_ops)
+    out.evaluations = len(ops) + len(ref_ops)
     for o, r, w, n in zip(ops, impl, want, names):
         out.count(n)
         out.nontrivial.add(o)
@@ -54,5 +62,5 @@ def run(ctx, out):
                                         "what": f"{n}: bytes assembled from the specification layout do not decode into the named fields / do not re-encode identically"})
     out.rule = (f"canonical values of all {len(spec['structs'])} types generated from the FROZEN specification table ({per} per type + maxima), encoded by the independent python reference encoder "
                 "(tag, length style, value encoding, class/instr/APDU length), then decoded and re-encoded by the Rust code: field names, values, empty remainder and identical bytes required; "
-                "the translated table is diffed against the frozen table and differing structs get 1500 extra values. non-trivial = distinct packets")
+                "every value is also encoded by the Lean reference encoder (Spec/RefCodec.lean, proved equal to the model of the serialiser: layout_implemented) and must give the same bytes as the python one; the translated table is diffed against the frozen table and differing structs get 1500 extra values. non-trivial = distinct packets")
     out.samples = [ops[7][:300], {"op": ops[len(ops)//3][:160], "impl": impl[len(ops)//3][:300]}]
